@@ -401,6 +401,10 @@ theorem countInv_closed : Closed CountInv where
   scopes := fun s u f sc hi hf => hi.of_hk (hk_setFlow s u f { f with scopes := sc } hf rfl) rfl rfl rfl
   stopActions := fun s l s' hi h => stopActions_countInv s l s' hi h
 
+theorem countInv_busy : ClosedBusy CountInv :=
+  ⟨fun s u hi => hi.of_hk (s' := markBusy s u) (HkEq.of_flows_eq rfl) rfl rfl rfl,
+   fun s l hi => hi.of_hk (s' := { s with busy := l }) (HkEq.of_flows_eq rfl) rfl rfl rfl⟩
+
 /-! ### the operations of the operation-sequence semantics -/
 
 theorem holders_setFlow_eq (s : State) (u : Nat) (f f' : Flow) (hf : s.flows u = some f) (a : Nat) (h : fc f' a = fc f a) :
